@@ -167,6 +167,20 @@ func (c *checker) checkStarted(s *server, e *sim.Ev) {
 			c.violate("C10", "restart-wrong-configuration", e.Seq, "%s restarted reporting configuration [%s] but its durable state says [%s] (log configuration index %d)", key, cfg, wantCfg, ci)
 		}
 	}
+	// the configuration must also be the one the committed history had at that point: a
+	// snapshot that carries an older configuration than an entry it covers loses that entry
+	if sn := d.newest(); sn != nil && lc == "" {
+		var gi uint64
+		var gc string
+		for i, g := range c.G {
+			if g.ty == LogConfiguration && i <= sn.index && i > gi {
+				gi, gc = i, g.payload
+			}
+		}
+		if gi > sn.cfgIdx && gc != cfg {
+			c.violate("C10", "restart-stale-configuration", e.Seq, "%s restarted reporting configuration [%s] (from its snapshot at index %d, configuration index %d) although configuration [%s] was committed at index %d, which that snapshot covers", key, cfg, sn.index, sn.cfgIdx, gc, gi)
+		}
+	}
 	if d.newest() != nil {
 		st := c.getStream(key)
 		if st.restores == 0 {
